@@ -4,7 +4,8 @@ SPEC = {
              {"kind": "nf5", "quick": 5000, "thorough": 400000},
              {"kind": "sflow", "quick": 15000, "thorough": 1200000}],
     "rule": "as C01; every decode call runs under a 1 s watchdog (a hang = the model's `fuel`), its runtime.MemStats.TotalAlloc delta "
-            "is compared with a bound linear in the datagram (x largest possible template for IPFIX/v9), and len(DataSets)/len(Samples) "
+            "is compared with a bound linear in the datagram (16 KiB + 200 B per octet; IPFIX/v9: the product with the number of zero-length "
+            "field specifiers of a cached template is tolerated only as the recorded finding K4 `fail:amplification`), and len(DataSets)/len(Samples) "
             "with the datagram length; corpus: the zero-length / zero-field template and reserved-flowset witnesses of F2; "
             "non-trivial = decoded; distinct = case line",
     "assumptions": ["seconds and bytes are measured, not proved: the theorems bound loop iterations (fuel) and allocation *units* of the model",
